@@ -581,6 +581,15 @@ def const_truth(t):
     if isinstance(t, (ast.List, ast.Tuple, ast.Dict, ast.Set)):
         n = len(t.elts) if not isinstance(t, ast.Dict) else len(t.keys)
         return n > 0
+    if isinstance(t, ast.Lambda):
+        return True
+    if isinstance(t, ast.Call) and isinstance(t.func, ast.Name) and t.args and isinstance(t.args[0], ast.Lambda):
+        if t.func.id == 'callable':
+            return True
+        if t.func.id == 'isinstance' and len(t.args) == 2:
+            names = {n.id for n in ast.walk(t.args[1]) if isinstance(n, ast.Name)} | {n.attr for n in ast.walk(t.args[1]) if isinstance(n, ast.Attribute)}
+            if not names & {'FunctionType', 'LambdaType', 'Callable', 'object'}:
+                return False
     if isinstance(t, ast.Compare) and len(t.ops) == 1 and isinstance(t.left, ast.Constant) and isinstance(t.comparators[0], ast.Constant):
         a, b, op = t.left.value, t.comparators[0].value, t.ops[0]
         if isinstance(op, ast.Is):
